@@ -7,7 +7,8 @@ ID = 'C16'
 FLAVOUR = {'quick': 'asan', 'thorough': 'asan'}
 THEOREMS = ['Nix.C16.tag_accesses_in_bounds', 'Nix.C16.slice_accesses_in_bounds', 'Nix.C16.slice_arg_no_raw_overrun',
             'Nix.C16.maximumExtents_length', 'Nix.C16.mtag_accesses_in_bounds',
-            'Nix.St.createMultiTag_uninitialised', 'Nix.St.createFeature_uninitialised', 'Nix.St.validHandle_none']
+            'Nix.St.createMultiTag_uninitialised', 'Nix.St.createFeature_uninitialised', 'Nix.St.validHandle_none', 'Nix.SizeVec.flat_access_in_bounds', 'Nix.SizeVec.flat_access_refused', 'Nix.SizeVec.sub_access_in_bounds', 'Nix.SizeVec.idx_in_bounds', 'Nix.SizeVec.idx_refused', 'Nix.SizeVec.div_divisors_nonzero', 'Nix.SizeVec.positionInData_sound']
+LEAN_MODULES = ['NixModel.Props.C16', 'NixModel.Props.C16Sizes']
 RULE = ('abuse programs on the ASan + UBSan build of the library: (a) entity-tree histories in which every kind of call is also made through stale '
         'handles (entities deleted directly or with their parent), through never-initialised handles ($-), with indices at / past the end, '
         'with names of deleted entities, on features whose data array is gone, after close; (b) the tag / multi-tag / slice retrieval inputs '
@@ -22,12 +23,15 @@ ASSUMPTIONS = ['use-after-free inside HDF5, uninitialised reads (no MSan build o
 LEVEL_TEXT = ('Lean 4 theorems for every rank, every argument-vector length and every dimension index: the raw vector accesses of the three retrieval loops '
               '(getOffsetAndCount for Tag and MultiTag, dataSlice after fillPositionsExtentsAndUnits) are inside their vectors — the model writes each such '
               'access as an optional access and the theorems show the none case unreachable (for dataSlice this is the statement that was false of the '
-              'pinned tree, D3); an uninitialised or stale array handle is refused with UninitializedEntity before anything is touched. PARTIAL for the '
+              'pinned tree, D3); an uninitialised or stale array handle is refused with UninitializedEntity before anything is touched; in the bounds-checked '
+              'layer underneath (size vectors, the NDArray buffer, the position tests; NixModel/SizeVec.lean, replayed call by call) an accepted element '
+              'access lies inside the allocated bytes, operator[] refuses every index >= rank, a division that is carried out has no zero divisor and an '
+              'accepted position lies inside the data (each of the first three was false of the pinned tree: D35, D37, D36). PARTIAL for the '
               'property as a whole: memory safety of the compiled library is a runtime fact no model exhibits; it is observed, not proved, by running '
               'abuse programs (stale / uninitialised handles, indices past the end, wrong ranks, counts and offsets outside the data, never-written data, '
               'rejected calls) on the ASan + UBSan build in both tiers: any signal or sanitizer report is a violation with the trace prefix as replay.')
 LEVEL_NOTE = ('Trusted: Lean kernel; Region.lean as a transcription of the loops (validated bit-exactly on every C05/C06/C17 run); the sanitizer runtimes; '
-              'HDF5 is not instrumented. Not modelled: Hydra / DataSet buffer arithmetic, NDSize wrap-around at 2^64, StringWriter/Janus buffers — covered by the sanitizer runs only.')
+              'HDF5 is not instrumented. Not modelled: Hydra / DataSet buffer arithmetic, StringWriter/Janus buffers — covered by the sanitizer runs only.')
 
 def abuse_history(rng, tier):
     """an entity tree, then every kind of call through handles that are stale, uninitialised or out of range"""
@@ -162,11 +166,16 @@ def cases(tier, seed, rng):
     for c in ab:
         c.origin = 'abuse_dims:' + c.origin
         c.meta['no_driver'] = True
-    return out + ab
+    # corners of the public API no other family reaches (checks/abuse_api.py): size-vector arithmetic, NDArray element access,
+    # position tests, per-column getters of a data-frame dimension; answers predicted by NixModel/SizeVec.lean
+    from checks import abuse_api
+    api = abuse_api.cases(tier, seed + 1617, random.Random(seed * 7919 + 17))
+    return out + api + ab
 
 def relevant(f):
     # memory errors, crashes, hangs — and harness/driver mismatches of this family's own ops
-    return f.kind in ('FATAL', 'MALFORMED', 'UNKNOWN')
+    # (the answers of the `ab_*` ops are this property's own: an index past the end must be refused, not answered)
+    return f.kind in ('FATAL', 'MALFORMED', 'UNKNOWN') or (f.kind == 'DIFF' and f.tag().startswith('ab_'))
 
 def nontrivial(case, tags):
     return any('err' in t.lower() or t.endswith('.0') for t in tags) and any(t.endswith('ok') or '.ok' in t for t in tags)
